@@ -180,6 +180,39 @@ def main(n: int, m: int, b: bool):
 ''']
 
 
+# device calls whose arguments are all constants once the spec is known, given by keyword in an order that is not the
+# parameter order: the compile-time route (folding of path.gen) and the run-time routes must bind them alike
+FILLED_SRCS += ['''
+@tweezer
+def tk3(g: grid.Grid[Any, Any], a: float, b: float):
+    action.set_loc(g)
+    action.turn_on(action.ALL, action.ALL)
+    action.move(grid.shift(g, a, 0.0))
+    action.move(grid.shift(g, a, b))
+    action.turn_off(action.ALL, action.ALL)
+
+@tweezer
+def tks(a: float):
+    z = spec.get_static_trap(zone_id="A")
+    action.set_loc(z)
+    action.move(grid.shift(z, a, 0.5))
+
+@move
+def main(n: int, m: int, b: bool):
+    d = schedule.device_fn(tk3, [0, 1], [0])
+    z = spec.get_static_trap(zone_id="A")[0:2, 0:1]
+    ds = schedule.device_fn(tks, [0], [0])
+    ds(a=1.0)
+    d(z, b=2.0, a=1.0)
+    r = schedule.reverse(d)
+    r(b=0.5, g=z, a=3.0)
+    with schedule.parallel():
+        d(a=1.5, g=z, b=1.0)
+        r(z, 2.0, b=0.25)
+    return n
+''']
+
+
 def canon_obj(o):
     """route-independent text of an event operand (filled grids included)"""
     if isinstance(o, (list, tuple)):
@@ -211,10 +244,25 @@ def filled_worker(task):
             move.run_pass(mt, fold=fold, aggressive=aggr, typeinfer=tinf, verify=verify, **kw)
     except Exception as e:  # noqa: BLE001
         return (key, route, None, f"{type(e).__name__}: {ANSI.sub('', str(e))[:120]}")
-    outs = []
-    for a in argsets:
-        r = EV.run_with_events(mt, SPEC, a, plain=with_spec)
-        outs.append("err" if r.error is not None else "; ".join(f"{e[0]} {canon_obj(list(e[1:]))}" for e in r.events))
+    def run_all(m, sp):
+        o = []
+        for a in argsets:
+            r = EV.run_with_events(m, sp, a, plain=with_spec)
+            o.append("err" if r.error is not None else "; ".join(f"{e[0]} {canon_obj(list(e[1:]))}" for e in r.events))
+        return o
+    outs = run_all(mt, SPEC)
+    # the same program for a second architecture: a second entry point compiled afterwards in the same module (sharing the
+    # traced kernels and subroutines of the first), or - on routes without a compile-time spec - the same kernel run against it
+    if with_spec and not unroll and not rerun:
+        C06.SPEC_SLOT2 = SPEC2
+        i = src.rindex("@move\ndef main(")
+        s2 = s + "\n" + src[i:].replace("@move\ndef main(", f"@move({opts.replace('_C06.SPEC_SLOT', '_C06.SPEC_SLOT2')})\ndef main2(")
+        try:
+            outs += ["second architecture: " + x for x in run_all(T.load_source(s2, "c04g").main2, SPEC2)]
+        except Exception as e:  # noqa: BLE001
+            outs += [f"second architecture: compile {type(e).__name__}"] * len(argsets)
+    elif not with_spec and not unroll and not rerun:
+        outs += ["second architecture: " + x for x in run_all(mt, SPEC2)]
     return (key, route, outs, None)
 
 
@@ -361,7 +409,11 @@ def run(ctx):
     for i, src in enumerate(FILLED_SRCS):
         ref = fres.get((i, plain_route)) or filled_worker((i, src, plain_route, [(2, 0, True), (1, 0, False), (0, 1, True)]))[2:]
         if ref[0] is None or any(o == "err" for o in ref[0]):
-            raise HarnessFault(f"filled-grid program {i} does not run on the plain route: {ref}")
+            # the fixed programs are valid programs (each runs on the pinned tree): one that does not even run on the plain
+            # route is a failure of the implementation, not of the harness
+            ctx.fail({"stream": "fixed-source", "source": src, "route": route_name(plain_route)},
+                     f"fixed-source program {i} does not run on the plain route (fold off, spec at run time): {str(ref)[:200]}")
+            continue
         for (k, route), (outs, err) in sorted(fres.items()):
             if k != i:
                 continue
@@ -370,12 +422,13 @@ def run(ctx):
             if outs is None:
                 ctx.count("filled_route_rejected")
                 continue
-            for a, got, want in zip([(2, 0, True), (1, 0, False), (0, 1, True)], outs, ref[0]):
+            A3 = [(2, 0, True), (1, 0, False), (0, 1, True)]
+            for a, got, want in zip(A3 + A3, outs, ref[0]):     # (entries 4-6: the second architecture)
                 if got != want:
                     k = None
                     if i == F24_TEMPLATE and a[2] is False and "vac=" in got and "vac=" not in want:
                         k = "F24-view-equals-filled-view"
-                    ctx.fail(dict(case, args=list(a)), f"filled-grid program: events on route [{route_name(route)}] differ from the "
+                    ctx.fail(dict(case, args=list(a)), f"fixed-source program (compared route against route): events on route [{route_name(route)}] differ from the "
                                                        f"unfolded run-time-spec route: got={got[:300]} want={want[:300]}", key=k)
     for key in list(progs)[:2]:
         p = progs[key]
